@@ -7,34 +7,192 @@
 //! some s, n with s + n <= buf.len(), which is how the harness builds it — apply ONE arbitrary operation with
 //! arbitrary arguments.  Checked: (1) CBMC's pointer checks on every `ptr.add` / `slice::from_raw_parts` of the real
 //! unsafe code (no out-of-allocation pointer, no dangling dereference), (2) I holds again for the reader and for every
-//! reader the operation hands back, at exactly the expected window, (3) results and remaining bytes equal those of the
-//! borrowed `EndianSlice` on the same window (reader kinds agree), (4) the bytes stay readable after clone + drop of the
-//! original / of the clone / of the section reader in either order.
+//! reader the operation hands back, at exactly the expected window, and an arbitrary byte read through it is the byte of
+//! the section at that offset, (3) results and the remaining window equal those of the borrowed `EndianSlice` on the
+//! same window (reader kinds agree), (4) the bytes stay readable after clone + drop of the original / of the clone / of
+//! the section reader in any order.
+//! The operations are spread over several harnesses: `*_cursor` (skip / truncate / split / empty), `*_ints` (read_u32 /
+//! read_u64), `*_read_slice`, `*_views` (offset_id + lookup_offset_id, range / range_from / range_to, offset_from between
+//! windows), `*_find`.
 //! Complete in the operation and its arguments; bounded in the buffer length (16 bytes, `Rc<[u8]>`; thorough tier:
 //! 32 bytes, `Arc<[u8]>`).  `Rc`/`Arc` themselves are dependencies (their code is executed by CBMC here, but no claim
 //! is made about them beyond these runs).
-use crate::eslice::any_endian;
-use gimli::{EndianReader, EndianSlice, Error, Reader, ReaderOffsetId, RunTimeEndian};
+use crate::eslice::{any_endian, choose};
+use core::fmt::Debug;
+use gimli::{CloneStableDeref, EndianReader, EndianSlice, Error, Reader, ReaderOffsetId, RunTimeEndian};
 use std::rc::Rc;
 use std::sync::Arc;
 
 type ER<T> = EndianReader<RunTimeEndian, T>;
+type S<'a> = EndianSlice<'a, RunTimeEndian>;
 
-/// I(r) at an expected window: r is exactly [off, off+len) of base's buffer
-macro_rules! inv {
-    ($r:expr, $base:expr, $l:expr, $off:expr, $len:expr) => {{
-        let off: usize = $off;
-        let len: usize = $len;
-        assert!(off <= $l && len <= $l - off);
-        assert!($r.len() == len);
-        assert!($r.bytes().len() == len);
-        assert!($r.offset_from(&$base) == off);
-        assert!($r.bytes().as_ptr() == $base.bytes().as_ptr().wrapping_add(off));
-    }};
+/// everything an operation sees: the section reader, the reader under test, the borrowed twin, the expected window
+struct Ctx<'a, T: CloneStableDeref<Target = [u8]> + Debug> {
+    data: &'a [u8],
+    base: ER<T>,
+    r: ER<T>,
+    m: S<'a>,
+    /// expected window of `r` (and of `m`) after the operation
+    off: usize,
+    len: usize,
+    /// `m` was emptied (EndianSlice::empty drops the position: compare lengths only)
+    m_emptied: bool,
 }
 
+/// I(x) at the expected window + one arbitrary byte
+fn inv<T: CloneStableDeref<Target = [u8]> + Debug>(x: &ER<T>, base: &ER<T>, data: &[u8], off: usize, len: usize) {
+    let l = data.len();
+    assert!(off <= l && len <= l - off);
+    assert!(x.len() == len);
+    assert!(x.bytes().len() == len);
+    assert!(x.offset_from(base) == off);
+    assert!(x.bytes().as_ptr() == base.bytes().as_ptr().wrapping_add(off));
+    let j: usize = kani::any();
+    if j < len {
+        assert!(x.bytes()[j] == data[off + j]);
+    }
+}
+
+fn s_skip<T: CloneStableDeref<Target = [u8]> + Debug>(c: &mut Ctx<'_, T>) {
+    let arg: usize = kani::any();
+    let a = c.r.skip(arg);
+    let b = c.m.skip(arg);
+    assert!(a.is_ok() == b.is_ok() && a.is_ok() == (arg <= c.len));
+    if a.is_ok() {
+        c.off += arg;
+        c.len -= arg;
+    }
+}
+fn s_truncate<T: CloneStableDeref<Target = [u8]> + Debug>(c: &mut Ctx<'_, T>) {
+    let arg: usize = kani::any();
+    let a = c.r.truncate(arg);
+    let b = c.m.truncate(arg);
+    assert!(a.is_ok() == b.is_ok() && a.is_ok() == (arg <= c.len));
+    if a.is_ok() {
+        c.len = arg;
+    }
+}
+fn s_split<T: CloneStableDeref<Target = [u8]> + Debug>(c: &mut Ctx<'_, T>) {
+    let arg: usize = kani::any();
+    let a = c.r.split(arg);
+    let b = c.m.split(arg);
+    assert!(a.is_ok() == b.is_ok() && a.is_ok() == (arg <= c.len));
+    if let (Ok(a), Ok(b)) = (a, b) {
+        inv(&a, &c.base, c.data, c.off, arg);
+        assert!(b.len() == arg && b.slice().as_ptr() == c.data.as_ptr().wrapping_add(c.off));
+        c.off += arg;
+        c.len -= arg;
+        // the head outlives the reader it was split from
+        if kani::any() {
+            c.r = a;
+            c.m = b;
+            c.off -= arg;
+            c.len = arg;
+        }
+    }
+}
+fn s_empty<T: CloneStableDeref<Target = [u8]> + Debug>(c: &mut Ctx<'_, T>) {
+    c.r.empty();
+    c.m.empty();
+    assert!(c.r.is_empty() && c.m.is_empty());
+    // EndianReader::empty is truncate(0): the position is kept
+    c.len = 0;
+    c.m_emptied = true;
+}
+fn s_read_u32<T: CloneStableDeref<Target = [u8]> + Debug>(c: &mut Ctx<'_, T>) {
+    let a = c.r.read_u32();
+    let b = c.m.read_u32();
+    assert!(a.is_ok() == (c.len >= 4));
+    match (a, b) {
+        (Ok(a), Ok(b)) => {
+            assert!(a == b);
+            c.off += 4;
+            c.len -= 4;
+        }
+        (Err(Error::UnexpectedEof(id)), Err(_)) => assert!(c.base.lookup_offset_id(id) == Some(c.off)),
+        _ => assert!(false),
+    }
+}
+fn s_read_u64<T: CloneStableDeref<Target = [u8]> + Debug>(c: &mut Ctx<'_, T>) {
+    let a = c.r.read_u64();
+    let b = c.m.read_u64();
+    assert!(a.is_ok() == (c.len >= 8));
+    match (a, b) {
+        (Ok(a), Ok(b)) => {
+            assert!(a == b);
+            c.off += 8;
+            c.len -= 8;
+        }
+        (Err(_), Err(_)) => {}
+        _ => assert!(false),
+    }
+}
+fn s_read_slice<T: CloneStableDeref<Target = [u8]> + Debug>(c: &mut Ctx<'_, T>) {
+    let k: usize = kani::any();
+    kani::assume(k <= 9);
+    let mut b1 = [0u8; 9];
+    let mut b2 = [0u8; 9];
+    let a = c.r.read_slice(&mut b1[..k]);
+    let b = c.m.read_slice(&mut b2[..k]);
+    assert!(a.is_ok() == b.is_ok() && a.is_ok() == (k <= c.len));
+    if a.is_ok() {
+        let j: usize = kani::any();
+        if j < k {
+            assert!(b1[j] == c.data[c.off + j] && b2[j] == b1[j]);
+        }
+        c.off += k;
+        c.len -= k;
+    }
+}
+fn s_find<T: CloneStableDeref<Target = [u8]> + Debug>(c: &mut Ctx<'_, T>) {
+    let byte: u8 = kani::any();
+    let j: usize = kani::any();
+    match (c.r.find(byte), Reader::find(&c.m, byte)) {
+        (Ok(i), Ok(i2)) => {
+            assert!(i == i2 && i < c.len && c.data[c.off + i] == byte);
+            assert!(!(j < i && c.data[c.off + j] == byte));
+        }
+        (Err(Error::UnexpectedEof(id)), Err(_)) => {
+            assert!(!(j < c.len && c.data[c.off + j] == byte));
+            assert!(c.base.lookup_offset_id(id) == Some(c.off));
+        }
+        _ => assert!(false),
+    }
+}
+fn s_ids<T: CloneStableDeref<Target = [u8]> + Debug>(c: &mut Ctx<'_, T>) {
+    // offset ids: round trip through the section reader and through the reader itself; arbitrary ids
+    let id = c.r.offset_id();
+    assert!(c.base.lookup_offset_id(id) == Some(c.off));
+    assert!(c.r.lookup_offset_id(id) == Some(0));
+    let x: u64 = kani::any();
+    let start = c.r.bytes().as_ptr() as u64;
+    match c.r.lookup_offset_id(ReaderOffsetId(x)) {
+        Some(k) => assert!(k <= c.len && x == start + k as u64),
+        None => assert!(x < start || x > start + c.len as u64),
+    }
+}
+fn s_ranges<T: CloneStableDeref<Target = [u8]> + Debug>(c: &mut Ctx<'_, T>) {
+    // a window of the window (range / range_from / range_to), offset_from between windows; the sub-window outlives r
+    let s2: usize = kani::any();
+    let n2: usize = kani::any();
+    kani::assume(s2 <= c.len && n2 <= c.len - s2);
+    let w = c.r.range(s2..s2 + n2);
+    inv(&w, &c.base, c.data, c.off + s2, n2);
+    assert!(w.offset_from(&c.r) == s2);
+    let f = c.r.range_from(s2..);
+    inv(&f, &c.base, c.data, c.off + s2, c.len - s2);
+    let t = c.r.range_to(..s2);
+    inv(&t, &c.base, c.data, c.off, s2);
+    c.r = w;
+    c.m = c.m.range(s2..s2 + n2);
+    c.off += s2;
+    c.len = n2;
+}
+// (`read_null_terminated_slice` = find + split + skip is a composition of steps covered above: by the inductive
+//  argument it needs no harness of its own here; K-ESLICE / K-RELOC check it on the borrowed reader)
+
 macro_rules! step {
-    ($name:ident, $l:expr, $unwind:expr, $ptr:ident, $ops:expr) => {
+    ($name:ident, $l:expr, $unwind:expr, $ptr:ident, $($f:ident),+) => {
         #[kani::proof]
         #[kani::unwind($unwind)]
         fn $name() {
@@ -46,174 +204,52 @@ macro_rules! step {
             let n: usize = kani::any();
             kani::assume(s <= L && n <= L - s);
             let base: ER<$ptr<[u8]>> = EndianReader::new(buf, e);
-            inv!(base, base, L, 0, L);
-            let mut r = base.range(s..s + n);
-            let mut m = EndianSlice::new(&data[s..s + n], e);
-            inv!(r, base, L, s, n);
-            assert!(r.bytes() == m.slice());
-            let arg: usize = kani::any();
-            let op: u8 = kani::any();
-            kani::assume(op < 5);
-            // expected window after the operation
-            let (mut off2, mut len2) = (s, n);
-            match $ops * 5 + op {
-                0 => {
-                    let a = r.skip(arg);
-                    let b = m.skip(arg);
-                    assert!(a.is_ok() == b.is_ok() && a.is_ok() == (arg <= n));
-                    if a.is_ok() {
-                        off2 = s + arg;
-                        len2 = n - arg;
-                    }
-                }
-                1 => {
-                    let a = r.truncate(arg);
-                    let b = m.truncate(arg);
-                    assert!(a.is_ok() == b.is_ok() && a.is_ok() == (arg <= n));
-                    if a.is_ok() {
-                        len2 = arg;
-                    }
-                }
-                2 => {
-                    let a = r.split(arg);
-                    let b = m.split(arg);
-                    assert!(a.is_ok() == b.is_ok() && a.is_ok() == (arg <= n));
-                    if let (Ok(a), Ok(b)) = (a, b) {
-                        assert!(a.bytes() == b.slice());
-                        inv!(a, base, L, s, arg);
-                        off2 = s + arg;
-                        len2 = n - arg;
-                        // the head outlives the reader it was split from
-                        if kani::any() {
-                            drop(r);
-                            assert!(a.bytes() == b.slice());
-                            return;
-                        }
-                    }
-                }
-                3 => {
-                    r.empty();
-                    m.empty();
-                    assert!(r.is_empty());
-                    len2 = 0;
-                }
-                4 => {
-                    let a = r.read_u32();
-                    let b = m.read_u32();
-                    assert!(a.is_ok() == (n >= 4));
-                    match (a, b) {
-                        (Ok(a), Ok(b)) => {
-                            assert!(a == b);
-                            off2 = s + 4;
-                            len2 = n - 4;
-                        }
-                        (Err(_), Err(_)) => {}
-                        _ => assert!(false),
-                    }
-                }
-                5 => {
-                    // read_slice(buf) with a symbolic length 0..=9
-                    let k = arg;
-                    kani::assume(k <= 9);
-                    let mut b1 = [0u8; 9];
-                    let mut b2 = [0u8; 9];
-                    let a = r.read_slice(&mut b1[..k]);
-                    let b = m.read_slice(&mut b2[..k]);
-                    assert!(a.is_ok() == b.is_ok() && a.is_ok() == (k <= n));
-                    if a.is_ok() {
-                        assert!(b1[..k] == data[s..s + k]);
-                        off2 = s + k;
-                        len2 = n - k;
-                    }
-                }
-                6 => {
-                    let byte = arg as u8;
-                    let a = r.find(byte);
-                    let b = Reader::find(&m, byte);
-                    match (a, b) {
-                        (Ok(i), Ok(j)) => {
-                            assert!(i == j && i < n && data[s + i] == byte);
-                        }
-                        (Err(Error::UnexpectedEof(id)), Err(_)) => {
-                            assert!(base.lookup_offset_id(id) == Some(s));
-                        }
-                        _ => assert!(false),
-                    }
-                }
-                7 => {
-                    // offset ids: round trip through the section reader, through the reader itself, and for arbitrary ids
-                    let id = r.offset_id();
-                    assert!(base.lookup_offset_id(id) == Some(s));
-                    assert!(r.lookup_offset_id(id) == Some(0));
-                    let x = arg as u64;
-                    let start = r.bytes().as_ptr() as u64;
-                    match r.lookup_offset_id(ReaderOffsetId(x)) {
-                        Some(k) => assert!(k <= n && x == start + k as u64),
-                        None => assert!(x < start || x > start + n as u64),
-                    }
-                }
-                8 => {
-                    // a window of the window (range / range_from / range_to) and offset_from between windows
-                    let s2 = arg;
-                    let n2: usize = kani::any();
-                    kani::assume(s2 <= n && n2 <= n - s2);
-                    let w = r.range(s2..s2 + n2);
-                    inv!(w, base, L, s + s2, n2);
-                    assert!(w.offset_from(&r) == s2);
-                    assert!(w.bytes() == m.range(s2..s2 + n2).slice());
-                    let f = r.range_from(s2..);
-                    inv!(f, base, L, s + s2, n - s2);
-                    let t = r.range_to(..s2);
-                    inv!(t, base, L, s, s2);
-                    drop(r);
-                    assert!(w.bytes() == m.range(s2..s2 + n2).slice());
-                    return;
-                }
-                _ => {
-                    // read_null_terminated_slice = find + split + skip
-                    let a = r.read_null_terminated_slice();
-                    let b = m.read_null_terminated_slice();
-                    assert!(a.is_ok() == b.is_ok());
-                    if let (Ok(a), Ok(b)) = (a, b) {
-                        assert!(a.bytes() == b.slice());
-                        let i = a.len();
-                        inv!(a, base, L, s, i);
-                        off2 = s + i + 1;
-                        len2 = n - i - 1;
-                    }
-                }
-            }
-            // I re-established at exactly the expected window; same remaining bytes as the borrowed reader
-            inv!(r, base, L, off2, len2);
-            assert!(r.bytes() == m.slice());
-            // clone + drop, both orders; the section reader may go first
-            let c = r.clone();
-            assert!(c == r);
+            inv(&base, &base, &data, 0, L);
+            let r = base.range(s..s + n);
+            inv(&r, &base, &data, s, n);
+            let mut c = Ctx { data: &data[..], base, r, m: EndianSlice::new(&data[s..s + n], e), off: s, len: n, m_emptied: false };
+            choose!(&mut c, $($f),+);
+            let Ctx { base, r, m, off, len, m_emptied, .. } = c;
+            // I re-established at exactly the expected window; the borrowed reader is at the same window
+            inv(&r, &base, &data, off, len);
+            assert!(m.len() == len);
+            assert!(m_emptied || m.slice().as_ptr() == data.as_ptr().wrapping_add(off));
+            // clone + drop in any order; the section reader may go first
+            let cl = r.clone();
             let which: u8 = kani::any();
+            let j: usize = kani::any();
             match which % 3 {
                 0 => {
                     drop(r);
                     drop(base);
-                    assert!(c.bytes() == m.slice());
+                    assert!(cl.len() == len && (j >= len || cl.bytes()[j] == data[off + j]));
                 }
                 1 => {
-                    drop(c);
+                    drop(cl);
                     drop(base);
-                    assert!(r.bytes() == m.slice());
+                    assert!(r.len() == len && (j >= len || r.bytes()[j] == data[off + j]));
                 }
                 _ => {
                     drop(base);
-                    assert!(r.bytes() == m.slice());
+                    assert!(j >= len || r.bytes()[j] == data[off + j]);
                     drop(r);
-                    assert!(c.bytes() == m.slice());
+                    assert!(cl.len() == len && (j >= len || cl.bytes()[j] == data[off + j]));
                 }
             }
         }
     };
 }
 
-// ops 0..5: skip / truncate / split / empty / read_u32 ; ops 5..10: read_slice / find / offset ids / sub-windows / null-terminated
-step!(k_subrange_step_rc16_cursor, 16, 20, Rc, 0);
-step!(k_subrange_step_rc16_views, 16, 20, Rc, 1);
-step!(k_subrange_step_arc32_cursor, 32, 36, Arc, 0);
-step!(k_subrange_step_arc32_views, 32, 36, Arc, 1);
+macro_rules! steps {
+    ($l:expr, $unwind:expr, $ptr:ident, $cursor:ident, $ints:ident, $read_slice:ident, $views:ident, $find:ident) => {
+        step!($cursor, $l, $unwind, $ptr, s_skip, s_truncate, s_split, s_empty);
+        step!($ints, $l, $unwind, $ptr, s_read_u32, s_read_u64);
+        step!($read_slice, $l, $unwind, $ptr, s_read_slice);
+        step!($views, $l, $unwind, $ptr, s_ids, s_ranges);
+        step!($find, $l, $unwind, $ptr, s_find);
+    };
+}
+steps!(16, 20, Rc, k_subrange_step_rc16_cursor, k_subrange_step_rc16_ints, k_subrange_step_rc16_read_slice, k_subrange_step_rc16_views,
+       k_subrange_step_rc16_find);
+steps!(32, 36, Arc, k_subrange_step_arc32_cursor, k_subrange_step_arc32_ints, k_subrange_step_arc32_read_slice, k_subrange_step_arc32_views,
+       k_subrange_step_arc32_find);
